@@ -47,13 +47,22 @@ def args_unary(op, shape, thorough):
                     yield {"shift": list(s), "axis": [axs[0], axs[1] - d]}
                 yield {"shift": 1, "axis": list(axs)}
     elif op == "pad":
-        opts = list(itertools.product(range(0, 3), repeat=2 * d))
-        step = 1 if (thorough or len(opts) <= 81) else max(1, len(opts) // 60)
-        for pw in opts[::step]:
-            yield {"pad_width": list(pw), "value": FILL}
+        if d <= 3:
+            opts = list(itertools.product(range(0, 3), repeat=2 * d))
+            step = 1 if (thorough or len(opts) <= 81) else max(1, len(opts) // 60)
+            for pw in opts[::step]:
+                yield {"pad_width": list(pw), "value": FILL}
+        else:
+            # 3^(2d) width vectors do not fit in memory for larger ranks (pipelines reach rank 6+): a fixed spread instead
+            for k in range(60):
+                yield {"pad_width": [((k * 7 + i * 5) // (i + 1)) % 3 for i in range(2 * d)], "value": FILL}
     elif op == "resize":
-        for dst in itertools.product(range(1, 5), repeat=d):
-            yield {"shape": list(dst)}
+        if d <= 4:
+            for dst in itertools.product(range(1, 5), repeat=d):
+                yield {"shape": list(dst)}
+        else:
+            for k in range(64):
+                yield {"shape": [1 + ((k * 3 + i * 7) // (i + 1)) % 4 for i in range(d)]}
     elif op == "take":
         lists = lambda m: [[0], [m - 1], [-1], [-m], [0, 0], [m - 1, 0, -m], list(range(m)), list(range(m - 1, -1, -1)), [-1, -1, 0]]
         for idx in lists(n):
